@@ -45,6 +45,9 @@ CLAIMED = {
  "C08": ("replica oracle: every element of a batched object's output vs a non-batched replica built by slicing the state_dict",
          "Runtime monitoring of batched kernels (18 specs incl. composed, active_dims, multitask, derivative), means, Gaussian/fixed-noise likelihoods, exact GP posterior + MLL, SVGP q(f) + KL + ELBO (whitened/unwhitened, Cholesky/mean-field, shared or batched inducing points) over every broadcastable (parameter batch, data batch) pair from {(),(2),(3,2),(1,2),(3,1)}: for every element b of the broadcast batch a non-batched replica receives the b-th slice of every state_dict tensor and of the data and must reproduce output[b]; IndependentModelList outputs are bit-identical to the members' and SumMarginalLogLikelihood is their mean (unequal member sizes). Decides executed cells only.",
          "Replicas are built through the same public constructors; parameters differ per batch element.", "DESIGN.md §4 C08"),
+ "C13": ("reference-model monitors: exact Gaussian moments, a 30-digit Gauss-Hermite rule applied to the documented densities, analytic Bernoulli marginal, mpmath log Phi; mutation hook on the quadrature's input",
+         "Runtime monitoring of the real GaussHermiteQuadrature1D / likelihood / log_normal_cdf functions: monomials and random polynomials of every degree < 2*num_locs for num_locs in {1..40} (set through settings) against exact Gaussian moments over mean/variance regimes, batch shapes and distribution types (each distribution object integrated twice; a hook asserts forward() does not mutate it); expected_log_prob / log_marginal of Laplace, Student-t, Beta, Bernoulli against the exact rule recomputed by Golub-Welsch in mpmath on the documented densities; Bernoulli marginal vs Phi(m/sqrt(1+v)); conditional-distribution parameters; log_normal_cdf and its gradient on a 10k-point grid plus branch borders vs mpmath; truncation error at 64 nodes below that at 8. Decides executed cells only.",
+         "Laplace/Student-t scale is sqrt(noise) (the property's reading of the docstrings); the Beta docstring/code disagreement is a recorded finding.", "DESIGN.md §4 C13"),
 }
 NOT_YET = "check not built yet in this round (see DESIGN.md §9 build order); not claimed until its monitor exists and is silent on the unchanged tree"
 
